@@ -21,6 +21,11 @@ def queries(tier):
         ma = 24 if i == 2 else 64      # std::string growth (SSO -> heap with a symbolic length) is far costlier than vector growth
         qs.append(Query("typed_op%d_N%d" % (i, n), "C12_typed.cpp", "h_typed", {"N": n, "OP": i}, unwind=ma + 6, max_alloc=ma,
                         desc="%s at an arbitrary position of an arbitrary %d-byte MemoryReader: consumes exactly its encoded size, negative/unsatisfiable sizes refused" % (o, n)))
+    for op, on in enumerate(["Read<int8_t>(vector<uint8_t>)", "Read<int8_t>(vector<uint16_t>)", "Read<uint8_t>(vector<uint32_t>)"]):
+        qs.append(Query("prefix_kernel_op%d" % op, "C12_typed.cpp", "h_prefix_kernel", {"N": 8, "OP": op}, unwind=20, max_alloc=1100, timeout=600,
+                        redirects={"_ZNSt6vectorIhSaIhEE17_M_default_appendEm": "stub_default_append_u8", "_ZNSt6vectorItSaItEE17_M_default_appendEm": "stub_default_append_u16",
+                                   "_ZNSt6vectorIjSaIjEE17_M_default_appendEm": "stub_default_append_u32"},
+                        desc="%s over a kernel reader that delivers an arbitrary prefix and is long enough for any count (allocation cap 1100 bytes): a negative prefix never reaches the container read, and that read has prefix x element-size bytes" % on))
     return qs
 
 LEVEL_TEXT = ("Bounded model checking of the real reader code: one arbitrary operation with free 64-bit arguments from an arbitrary valid state "
